@@ -586,6 +586,11 @@ def _has_I(e):
     return False
 
 
+# above this many monomial products the identity is decided by random interpretation instead of the exact
+# normal form (the cross-multiplied polynomials of geometry-laden terms have 10^5..10^7 monomials)
+EXACT_PRODUCT_LIMIT = 60000
+
+
 def equal(a: Ex, b: Ex, rng=None, points=12, real_only=False, tol=1e-8):
     """Decide a == b.  Returns (True, 'exact'|'random', None) or (False, how, witness)."""
     if a is b:
@@ -598,6 +603,8 @@ def equal(a: Ex, b: Ex, rng=None, points=12, real_only=False, tol=1e-8):
         atoms = {}
         n1, d1 = to_rat(a, atoms)
         n2, d2 = to_rat(b, atoms)
+        if len(n1) * len(d2) > EXACT_PRODUCT_LIMIT or len(n2) * len(d1) > EXACT_PRODUCT_LIMIT:
+            raise NotRational("cross-multiplication too large for the exact normal form: random interpretation")
         lhs, rhs = p_mul(n1, d2), p_mul(n2, d1)
         if lhs == rhs:
             return True, "exact", None
